@@ -179,7 +179,16 @@ def check_handler(ctx, m, f, tr, h, typename):
             if isinstance(n, ast.Call):
                 nm = call_name(n)
                 if nm not in SAFE_HANDLER_CALLS and not (nm or "").startswith("os.path."):
-                    ctx.note(f"R20a: handler in {func} calls {nm}() - not in the cannot-raise whitelist (advisory)")
+                    ctx.violation("R20a", f.file, func, n, f"except {norm(h.type)}: call {nm or norm(n.func, 30)}",
+                                  f"the error handler calls `{norm(n, 50)}`, which is outside the cannot-raise whitelist "
+                                  f"({', '.join(sorted(SAFE_HANDLER_CALLS))}); an exception here escapes "
+                                  f"build_tree_handling_errors instead of the message")
+                    ok = False
+            if isinstance(n, ast.Subscript) and not isinstance(n.slice, ast.Slice) and isinstance(n.ctx, ast.Load):
+                ctx.violation("R20a", f.file, func, n, f"except {norm(h.type)}: index {norm(n, 40)}",
+                              f"the error handler indexes `{norm(n, 50)}`; an IndexError/KeyError here (e.g. an error "
+                              f"position past the last line) escapes build_tree_handling_errors instead of the message")
+                ok = False
     # mentions the file
     params = func_params(f.node)
     pathp = params[1] if len(params) > 1 else None
